@@ -86,6 +86,10 @@ def cases(tier, seed):
       p['basis'] = ['triplet_diffs', '@basis'][(i // 3) % 2]
     if p['basis'] == '@basis' and p['n_basis'] is None:
       p['n_basis'] = 3 * d
+    # (progress output is a configuration like any other: it must not
+    # alter what is computed)
+    if i % 5 == 2:
+      p['verbose'] = True
     out.append({'est': 'SCML_Supervised' if sup else 'SCML', 'params': p,
                 'ds': {'seed': int(r.randint(2**31 - 1)), 'd': d,
                        'classes': int(r.randint(2, 4)), 'variant': 'plain',
